@@ -17,6 +17,7 @@ type VJSON struct {
 	Object   bool                   // serializes as a JSON object
 	Hash     bool                   // enumeration order not fixed
 	Multiset bool                   // heap: only the multiset of contents and the drain order are defined
+	Strs     bool                   // keys and values are strings (atoms): documents are built with JSONDocS
 	Digits   bool                   // LinkedHashMap: the exact bytes.Index model needs single-digit keys and values
 	Bidi     bool
 	Inv      func()
@@ -162,7 +163,17 @@ func VJSONLoad(g VJSON) {
 			v.Assume(v.And(v.And(keys[i] >= 0, keys[i] <= 9), v.And(vals[i] >= 0, vals[i] <= 9)))
 		}
 	}
-	in := v.JSONDoc(class, keys, vals, bad)
+	var in []byte
+	if g.Strs {
+		sk, sx := make([]string, d), make([]string, d)
+		for i := 0; i < d; i++ {
+			v.Assume(v.And(v.And(keys[i] >= 1, keys[i] <= 1<<40), v.And(vals[i] >= 1, vals[i] <= 1<<40)))
+			sk[i], sx[i] = v.StrOf(keys[i]), v.StrOf(vals[i])
+		}
+		in = v.JSONDocS(class, sk, sx, bad)
+	} else {
+		in = v.JSONDoc(class, keys, vals, bad)
+	}
 	bk, bx := vSeq(g)
 	v.Track(g.C)
 	err := g.FromJSON(in)
